@@ -175,6 +175,9 @@ func (p *Program) collectFuncs() {
 
 // ReferenceKeys is the set of function keys of the reference tree (set once by the command from package norm; nil disables
 // re-homing).
+// ReferenceArity: number of parameters (receiver included) each reference function had.
+var ReferenceArity map[string]int
+
 var ReferenceKeys map[string]bool
 
 var (
@@ -213,6 +216,7 @@ func (p *Program) rehome() {
 		}
 		return rest, name
 	}
+	used := map[string]bool{}
 	missing := map[string][]string{} // pkg\x00name -> reference keys not declared now
 	for k := range ReferenceKeys {
 		if !declared[k] {
@@ -235,9 +239,55 @@ func (p *Program) rehome() {
 		}
 		rehomedKey[f] = cands[0]
 		p.rehomedDecl[k] = true
+		used[cands[0]] = true
 		if obj, ok := f.Object().(*types.Func); ok {
 			ref := strings.NewReplacer("(*", "", "(", "", ")", "").Replace(cands[0])
 			rehomedRef[obj] = ref
+		}
+	}
+	// A private helper that was renamed while it was converted (cleanupEmptySegment(new, old) became
+	// (*segment).deleteAlongWith(old)): in its package exactly one reference function is gone and exactly one function is new,
+	// and both take the same number of values (receiver included). The new one answers to the old key.
+	if ReferenceArity == nil {
+		return
+	}
+	gone := map[string][]string{}
+	for k := range ReferenceKeys {
+		if !declared[k] && !used[k] {
+			pk, _ := base(k)
+			gone[pk] = append(gone[pk], k)
+		}
+	}
+	fresh := map[string][]*ssa.Function{}
+	for _, f := range p.Funcs {
+		if f.Parent() != nil || f.Synthetic != "" {
+			continue
+		}
+		k := rawFuncKey(f)
+		if ReferenceKeys[k] || p.rehomedDecl[k] {
+			continue
+		}
+		pk, _ := base(k)
+		fresh[pk] = append(fresh[pk], f)
+	}
+	for pk, gs := range gone {
+		fs := fresh[pk]
+		if len(gs) != 1 || len(fs) != 1 {
+			continue
+		}
+		ar, ok := ReferenceArity[gs[0]]
+		if !ok || ar != len(fs[0].Params) {
+			continue
+		}
+		_, gname := base(gs[0])
+		if !(gname[0] >= 'a' && gname[0] <= 'z') {
+			continue // exported functions are API, not helpers
+		}
+		f := fs[0]
+		rehomedKey[f] = gs[0]
+		p.rehomedDecl[rawFuncKey(f)] = true
+		if obj, ok := f.Object().(*types.Func); ok {
+			rehomedRef[obj] = strings.NewReplacer("(*", "", "(", "", ")", "").Replace(gs[0])
 		}
 	}
 }
